@@ -321,30 +321,30 @@ theorem siteParams_pin : Gen.CacheRead.siteParams = [("deadlineAfter_c0", ["dura
   ("cache_evictionOrder_c3", ["yield_c_nodeToEntry_n_nowNano"]),
   ("cache_evictionOrder_a5", ["c_clock_NowNano"])] := by rfl
 
-theorem shape_pin : Gen.CacheRead.shape = [("deadlineAfter", [1, 0, 0, 2, 0, 0]),
-  ("getCause", [1, 0, 0, 2, 0, 0]),
-  ("cache_getNode", [3, 0, 1, 3, 0, 0]),
-  ("cache_getNodeQuietly", [1, 0, 1, 2, 0, 0]),
-  ("cache_has", [0, 0, 0, 1, 0, 0]),
-  ("cache_calcExpiresAtAfterRead", [1, 0, 1, 0, 0, 0]),
-  ("cache_setExpiresAfterRead", [2, 0, 2, 0, 0, 0]),
-  ("cache_SetExpiresAfter", [2, 0, 2, 0, 0, 0]),
-  ("cache_SetRefreshableAfter", [3, 0, 4, 0, 0, 0]),
-  ("cache_calcExpiresAtAfterWrite", [3, 0, 4, 0, 0, 0]),
-  ("cache_calcRefreshableAt", [6, 0, 6, 0, 0, 0]),
-  ("cache_isStale", [0, 0, 0, 1, 0, 0]),
-  ("cache_nodeToEntry", [3, 0, 6, 1, 0, 0]),
-  ("cache_newNode", [2, 0, 5, 1, 0, 0]),
-  ("cache_GetIfPresent", [1, 0, 2, 0, 0, 0]),
-  ("cache_GetEntry", [1, 0, 2, 0, 0, 0]),
-  ("cache_GetEntryQuietly", [1, 0, 2, 0, 0, 0]),
-  ("cache_nodes", [1, 0, 1, 1, 0, 0]),
-  ("cache_entries", [1, 0, 0, 1, 0, 0]),
-  ("cache_All", [1, 0, 0, 1, 0, 0]),
-  ("cache_Keys", [1, 0, 0, 1, 0, 0]),
-  ("cache_Values", [1, 0, 0, 1, 0, 0]),
-  ("cache_evictionOrder", [4, 0, 6, 2, 1, 0]),
-  ("cache_Hottest", [0, 0, 0, 1, 0, 0]),
-  ("cache_Coldest", [0, 0, 0, 1, 0, 0])] := by rfl
+theorem shape_pin : Gen.CacheRead.shape = [("deadlineAfter", [1, 0, 0, 2, 0, 0, 0]),
+  ("getCause", [1, 0, 0, 2, 0, 0, 0]),
+  ("cache_getNode", [3, 0, 1, 3, 0, 0, 0]),
+  ("cache_getNodeQuietly", [1, 0, 1, 2, 0, 0, 0]),
+  ("cache_has", [0, 0, 0, 1, 0, 0, 0]),
+  ("cache_calcExpiresAtAfterRead", [1, 0, 1, 0, 0, 0, 0]),
+  ("cache_setExpiresAfterRead", [2, 0, 2, 0, 0, 0, 0]),
+  ("cache_SetExpiresAfter", [2, 0, 2, 0, 0, 0, 0]),
+  ("cache_SetRefreshableAfter", [3, 0, 4, 0, 0, 0, 0]),
+  ("cache_calcExpiresAtAfterWrite", [3, 0, 4, 0, 0, 0, 0]),
+  ("cache_calcRefreshableAt", [6, 0, 6, 0, 0, 0, 0]),
+  ("cache_isStale", [0, 0, 0, 1, 0, 0, 0]),
+  ("cache_nodeToEntry", [3, 0, 6, 1, 0, 0, 0]),
+  ("cache_newNode", [2, 0, 5, 1, 0, 0, 0]),
+  ("cache_GetIfPresent", [1, 0, 2, 0, 0, 0, 0]),
+  ("cache_GetEntry", [1, 0, 2, 0, 0, 0, 0]),
+  ("cache_GetEntryQuietly", [1, 0, 2, 0, 0, 0, 0]),
+  ("cache_nodes", [1, 0, 1, 1, 0, 0, 0]),
+  ("cache_entries", [1, 0, 0, 1, 0, 0, 0]),
+  ("cache_All", [1, 0, 0, 1, 0, 0, 0]),
+  ("cache_Keys", [1, 0, 0, 1, 0, 0, 0]),
+  ("cache_Values", [1, 0, 0, 1, 0, 0, 0]),
+  ("cache_evictionOrder", [4, 0, 6, 2, 1, 0, 0]),
+  ("cache_Hottest", [0, 0, 0, 1, 0, 0, 0]),
+  ("cache_Coldest", [0, 0, 0, 1, 0, 0, 0])] := by rfl
 
 end OtterVerif.Pin.CacheRead
